@@ -16,7 +16,7 @@ _cache: Dict[tuple, List[Run]] = {}
 def runs_of(ctx, entry: Entry) -> List[Run]:
     key = (ctx.project.repo, entry.kind, entry.cls, entry.name, entry.module, tuple(sorted(entry.opaque)),
            entry.max_depth, tuple(sorted((k, str(v)) for k, v in entry.param_types.items())),
-           tuple(sorted((k, str(v)) for k, v in entry.preset.items())), entry.not_none)
+           tuple(sorted((k, str(v)) for k, v in entry.preset.items())), entry.not_none, entry.nonstatic)
     if key not in _cache:
         _cache[key] = explore(ctx.project, entry)
     runs = _cache[key]
